@@ -55,6 +55,9 @@ type Program struct {
 	Sleep    int    `json:"sleep"` // permille of hook visits that sleep a few microseconds
 	Threads  [][]Op `json:"threads"`
 	Restarts int    `json:"restarts"`
+	// Epilogue: emit query events, shut down before they expire, let them expire while
+	// stopped, serve again and run callbacks on the same groups.
+	Epilogue bool `json:"epilogue,omitempty"`
 }
 
 func (p Program) String() string { b, _ := json.Marshal(p); return string(b) }
@@ -79,6 +82,30 @@ func scratchTouch(g string) {
 	if p := scratch[g]; p != nil {
 		*p++
 	}
+}
+
+// one unsynchronised slot per worker group holding the resource/request object of the
+// group's previous callback; a later callback of the same group reads its accessors
+var kept = func() map[string]*res.Resource {
+	m := map[string]*res.Resource{}
+	for g := range scratch {
+		m[g] = new(res.Resource)
+	}
+	return m
+}()
+
+//go:noinline
+func scratchTouchKeep(g string, r res.Resource) int {
+	p := kept[g]
+	if p == nil {
+		return 0
+	}
+	n := 0
+	if old := *p; old != nil {
+		n = len(old.ResourceName()) + len(old.PathParams()) + len(old.Group())
+	}
+	*p = r
+	return n
 }
 
 //go:noinline
@@ -128,6 +155,7 @@ func newWorld(p Program) (*world, error) {
 			return // parallel resources give no exclusion
 		}
 		scratchTouch(g)
+		scratchTouchKeep(g, r)
 	}
 	s.Handle("r.$id", res.Access(res.AccessGranted),
 		res.GetModel(func(r res.ModelRequest) { touch(r); r.Model(map[string]int{"v": scratchRead(r.Group())}) }),
@@ -138,8 +166,11 @@ func newWorld(p Program) (*world, error) {
 		}),
 		res.Call("query", func(r res.CallRequest) {
 			touch(r)
+			g := r.Group()
 			r.QueryEvent(func(qr res.QueryRequest) {
 				if qr == nil {
+					// the final call belongs to the group's callbacks as well
+					scratchTouch(g)
 					return
 				}
 				touch(qr)
@@ -470,17 +501,37 @@ func runProgram(p Program) (reports []report, cbs int64, families int, err error
 	}
 	wg.Wait()
 	w.qs.Flush()
+	if p.Epilogue {
+		// query events that expire while the service is stopped, then a second cycle using the same groups
+		for _, rid := range []string{"svc.r.1", "svc.r.2", "svc.r.3"} {
+			w.exec(Op{K: "callquery", RID: rid}, fam, &fmu)
+		}
+		time.Sleep(2 * time.Millisecond)
+		w.shutdown()
+		time.Sleep(25 * time.Millisecond)
+		if err := w.serve(); err != nil {
+			return nil, 0, 0, err
+		}
+		for i := 0; i < 3; i++ {
+			for _, rid := range []string{"svc.r.1", "svc.r.2", "svc.r.3"} {
+				w.exec(Op{K: "call", RID: rid}, fam, &fmu)
+				w.exec(Op{K: "with", RID: rid, N: 1}, fam, &fmu)
+			}
+		}
+		time.Sleep(2 * time.Millisecond)
+	}
 	time.Sleep(25 * time.Millisecond) // let query events expire
 	w.shutdown()
 	time.Sleep(2 * time.Millisecond)
 	return newRaceReports(), atomic.LoadInt64(&w.cbs), len(fam), nil
 }
 
-var rids = []string{"svc.r.1", "svc.r.2", "svc.r.3", "svc.s.1", "svc.s.2", "svc.p.1", "svc.ms.1", "svc.bs.1", "svc.us.1", "svc.bq"}
+var rids = []string{"svc.r.1", "svc.r.2", "svc.r.3", "svc.s.1", "svc.s.2", "svc.p.1", "svc.ms.1", "svc.bs.1", "svc.us.1", "svc.bq", "svc.nosuch.1", "svc.nosuch.2", "svc.r.1", "svc.r.2"}
 
 func genProgram() *rapid.Generator[Program] {
 	return rapid.Custom(func(t *rapid.T) Program {
 		p := Program{Workers: rapid.SampledFrom([]int{1, 2, 4, 8, 32}).Draw(t, "workers")}
+		p.Epilogue = rapid.IntRange(0, 3).Draw(t, "epilogue") == 0
 		p.Yield = rapid.SampledFrom([]int{0, 50, 200, 500}).Draw(t, "yield")
 		p.Sleep = rapid.SampledFrom([]int{0, 10, 100}).Draw(t, "sleep")
 		nt := rapid.IntRange(2, 16).Draw(t, "threads")
